@@ -275,6 +275,9 @@ def plan(prop, tier):
     if prop in SEQ_CASES:
         qc, tc = SEQ_CASES[prop]
         procs = seq_shards(prop, tier, qc if q else tc)
+        if prop in ("C06", "C07"):
+            # register/unregister/gather histories issued by several real threads (harness/conc/src/wl_registry.rs)
+            procs += conc_e1(prop, tier, 4 if q else 90, 2 if q else 4)
         if not q and prop in SEQ_MIRI:
             procs += seq_miri(prop, 8, SEQ_MIRI[prop])
         if prop == "C04" and not q:
